@@ -6,6 +6,8 @@ import (
 	"testing"
 	"time"
 
+	"github.com/vx-labs/mqtt-protocol/packet"
+
 	"verif/internal/vk"
 )
 
@@ -213,4 +215,102 @@ func trunc(s string, n int) string {
 		return s[:n] + "..."
 	}
 	return s
+}
+
+
+// TestC02Stalled: a subscriber that stops reading for a while (back-pressure) but stays connected
+// must still receive every acknowledged publish once it reads again, also when the log rolls
+// segments and truncates in the meantime.
+type c02stall struct {
+	Before int   `json:"published_before_stall"`
+	During int   `json:"published_during_stall"`
+	SubQos int32 `json:"subscriber_qos"`
+}
+
+func TestC02Stalled(t *testing.T) {
+	var paths []c02stall
+	for _, b := range vk.Pick([]int{1200, 1699}, []int{600, 1200, 1450, 1699, 1990}) {
+		for _, d := range vk.Pick([]int{900}, []int{400, 900, 1300}) {
+			// subscriber QoS 0 only: with QoS > 0 the expiry goroutine retransmits into the stalled net.Pipe
+			// while the writer goroutine is blocked in it; net.Pipe serialises writers with a sync.Mutex,
+			// which testing/synctest does not treat as durably blocked, so quiescence could not be detected
+			for _, q := range []int32{0} {
+				paths = append(paths, c02stall{b, d, q})
+			}
+		}
+	}
+	RunPaths(t, "C02", "C02/stalled-subscriber", "TestC02Stalled", len(paths), vk.Pick(8*time.Minute, 30*time.Minute),
+		func(t *testing.T, i int, rep *vk.Report) {
+			p := paths[i]
+			RunBubble(t, fmt.Sprintf("p%d", i), func(t *testing.T) {
+				w := NewWorld(t, 1)
+				defer w.Close()
+				sub := w.NewClient("sub", 1, AckAll)
+				sub.Connect(ConnectOpts{ClientID: "sub", KeepAlive: 6000})
+				sub.Subscribe(1, p.SubQos, "t/#")
+				pub := w.NewClient("pub", 1, AckAll)
+				pub.Connect(ConnectOpts{ClientID: "pub", KeepAlive: 6000})
+				w.Step()
+				n := 0
+				send := func(k int) {
+					for j := 0; j < k; j++ {
+						pub.Publish("t/x", fmt.Sprintf("m%d", n), 1, false, int32(1+n%60000))
+						n++
+						if n%50 == 0 {
+							w.Quiesce()
+						}
+					}
+					w.Idle(5 * time.Second)
+				}
+				send(p.Before)
+				sub.Pause()
+				send(p.During)
+				Observe(w, rep)
+				sub.Resume()
+				w.Idle(60 * time.Second)
+				Observe(w, rep)
+				acked := map[int32]int{}
+				for _, r := range pub.Received() {
+					if a, ok := r.Pkt.(*packet.PubAck); ok {
+						acked[a.MessageId]++
+					}
+				}
+				got := map[string]bool{}
+				for _, pk := range sub.Publishes() {
+					got[string(pk.Payload)] = true
+				}
+				missing, ackedN := 0, 0
+				first := ""
+				for k := 0; k < n; k++ {
+					if acked[int32(1+k%60000)] == 0 {
+						continue
+					}
+					ackedN++
+					if !got[fmt.Sprintf("m%d", k)] {
+						missing++
+						if first == "" {
+							first = fmt.Sprintf("m%d", k)
+						}
+					}
+				}
+				if sub.BrokerClosed() {
+					rep.Violate(vk.Violation{Sig: "c02-stalled-subscriber-disconnected", Msg: fmt.Sprintf("%+v: the subscriber was disconnected", p), Replay: p})
+					return
+				}
+				if missing > 0 {
+					rep.Violate(vk.Violation{Sig: "c02-acknowledged-publish-lost:stalled-subscriber", Msg: fmt.Sprintf("%+v: %d of %d acknowledged publishes never reached the subscriber that stalled and stayed connected (first missing %s)", p, missing, ackedN, first), Replay: p})
+					return
+				}
+				if ackedN > 0 {
+					MarkNontrivial(fmt.Sprintf("%+v", p))
+					rep.Nontrivial++
+				}
+				rep.Sample(p)
+			})
+		},
+		func(i int) any { return paths[i] },
+		func(rep *vk.Report) {
+			rep.Rule = "paths = (messages published before the subscriber stops reading, messages published while it does not read, subscriber QoS); the log crosses segment (500) and truncation (2000) boundaries meanwhile; after it reads again every acknowledged publish must arrive within 60 s"
+			rep.Floor("paths", 2, rep.Nontrivial)
+		})
 }
